@@ -552,4 +552,8 @@ def run(src, out):
     paretogen.run(src, out, hdr)
     import pessgen
     pessgen.run(src, out, hdr)
+    import optgen
+    optgen.run(src, out, hdr)
+    import gpwgen
+    gpwgen.run(src, out, hdr)
     return hdr
